@@ -326,6 +326,8 @@ def make_class(config):
         Prog.test_it = testtools.skipIf(True, "")(Prog.test_it)
     elif dec == "skip_nonstr_reason":
         Prog.test_it = testtools.skip(42)(Prog.test_it)  # (skipTest documents: anything str() accepts)
+    elif dec == "skip_none_reason":
+        Prog.test_it = testtools.skip(None)(Prog.test_it)  # (as skipTest(None): the reason is 'None')
     elif dec == "skip_surrogate_reason":
         Prog.test_it = testtools.skip("no such file: name-\udcff")(Prog.test_it)  # os.fsdecode of an undecodable name
     elif dec == "unittest_skip_bare":
@@ -383,6 +385,7 @@ class ModelRun:
             "skipIf_empty_reason",
             "unittest_skip_bare",
             "skip_nonstr_reason",
+            "skip_none_reason",
             "skip_surrogate_reason",
             "skip_method",
             "skipIf_method",
